@@ -85,7 +85,7 @@ func checkShape(v interface{}, depth int, want *[]vkit.P2) string {
 				return "position element is not a number"
 			}
 			f, err := strconv.ParseFloat(string(n), 64)
-			if err != nil || f != float64((*want)[0][k]) {
+			if err != nil || math.Float64bits(f) != math.Float64bits(float64((*want)[0][k])) {
 				return "position value " + string(n) + " does not parse to the vertex coordinate " + strconv.FormatFloat(float64((*want)[0][k]), 'g', -1, 64)
 			}
 		}
@@ -147,8 +147,8 @@ func run(c Case) (v vkit.Verdict) {
 		return v.Fail("Decode(Encode(g)) error: %v on %s", err, b)
 	}
 	bj, ok := vkit.FromGeom(back)
-	if !ok || !bj.Equal(c.G, false) {
-		return v.Fail("Decode(Encode(g)) != g: %+v from %s", back, b)
+	if !ok || !bj.Equal(c.G, true) {
+		return v.Fail("Decode(Encode(g)) != g (compared bit for bit, so -0 must stay -0): %+v from %s", back, b)
 	}
 	gg, err := geojson.ToGeoJSON(g)
 	if err != nil || gg.Type != c.G.T {
@@ -215,10 +215,10 @@ func TestProp(t *testing.T) {
 		ID: "C06",
 		Rule: "rapid: geometries of the six supported types, 1-6 members with >=1 vertex in the first member (later members possibly empty), finite float64 coordinates from bit " +
 			"patterns (-0, subnormals, 17-digit values, 1e+-300) and plain decimals; negative space: GeometryCollection, *Bounds, one coordinate overwritten with NaN/+-Inf. " +
-			"Oracle: Decode(Encode(g)) same type/nesting/coordinates under ==; text parsed independently with encoding/json+UseNumber: object with exactly type and " +
-			"coordinates, RFC 7946 type name, nesting depth 1/2/2/3/3/4 with the member lengths of g, every position exactly two numbers that ParseFloat to (x,y) in order. " +
+			"Oracle: Decode(Encode(g)) same type/nesting and bit-identical coordinates (the property lists negative zero among the inputs and asks for exactly the same coordinates); text parsed independently with encoding/json+UseNumber: object with exactly type and " +
+			"coordinates, RFC 7946 type name, nesting depth 1/2/2/3/3/4 with the member lengths of g, every position exactly two numbers that ParseFloat to the bits of (x,y) in order. " +
 			"Non-trivial = >=2 members/positions or a coordinate needing >=16 significant digits, or a non-finite negative case. Distinct by case hash.",
-		Assumptions: []string{"-0 vs 0 is not an issue for GeoJSON (== comparison)", "nil and empty member slices are identified"},
+		Assumptions: []string{"nil and empty member slices are identified"},
 		Gen:         gen,
 		Run:         run,
 	})
